@@ -104,6 +104,90 @@ def gen_history(rng, bbr=False):
     return case
 
 
+def gen_bbr_probe(rng):
+    """BBR driven round by round: Startup until the pipe is filled (bandwidth plateau or loss),
+    ProbeBW with loss bursts and ECN (inflight_hi / inflight_lo reductions), application-limited
+    and idle phases longer than the 5 s ProbeRTT interval, ProbeRTT with a small BDP, MTU changes."""
+    mds = rng.choice(MDS_CHOICES + [rng.randrange(1200, 9001)])
+    case = [mds]
+    rtt = rng.choice([1000, 5000, 20000, 50000, 100000])
+    pk = []          # outstanding packet sizes, oldest first
+    dt_next = [0]
+
+    def op(code, a=0, b=0, c=0):
+        case.extend([code, a, b, c, dt_next[0]])
+        dt_next[0] = 0
+
+    def wait(us):
+        dt_next[0] += us
+
+    def send(n, size, app):
+        for _ in range(n):
+            op(1, size, app)
+            pk.append(size)
+            if rng.random() < 0.3:
+                wait(rng.choice([1, 10, 100]))
+
+    def ack(n, sample):
+        n = min(n, len(pk))
+        if n <= 0:
+            return
+        b = sum(pk[:n])
+        del pk[:n]
+        op(2, b, 0, max(1, sample))
+
+    def lose(n, pers=0):
+        first = 1
+        for _ in range(min(n, len(pk))):
+            b = pk.pop(0)
+            op(3, b, pers, first)
+            first = rng.choice([0, 0, 1])
+
+    k = rng.choice([2, 4, 10])
+    plateau = rng.choice([8, 16, 32, 64])
+    rounds = rng.choice([6, 10, 16, 24, 40])
+    budget = rng.choice([120, 200, 320])
+    for r in range(rounds):
+        if len(case) // 5 > budget:
+            break
+        q = rng.random()
+        size = mds if rng.random() < 0.85 else rng.randrange(1, 65536)
+        app = 1 if rng.random() < 0.8 else rng.choice([0, 2])
+        send(k, size, app)
+        wait(rtt + rng.choice([0, 0, rtt // 8, rtt // 2]))
+        if q < 0.25 and len(pk) > 3:
+            lose(rng.choice([1, 2, 3, len(pk) // 2]))
+        elif q < 0.32:
+            op(4, rng.choice([1, 3, 50]))
+        # acknowledge the round in one or several acks
+        parts = rng.choice([1, 1, 2, 4])
+        left = len(pk) - rng.choice([0, 0, 0, 1, 2])
+        for i in range(parts):
+            ack(max(1, left // parts), rtt + rng.choice([0, 0, rtt // 10, rtt, 5 * rtt]))
+            wait(rng.choice([0, 1, rtt // (parts + 1)]))
+        k = min(plateau, k * 2) if rng.random() < 0.8 else k
+        z = rng.random()
+        if z < 0.12:
+            # idle / application-limited gap around the ProbeRTT interval, then a trickle
+            wait(rng.choice([900_000, 2_600_000, 4_999_999, 5_000_001, 5_200_000, 9_000_000]))
+            for _ in range(rng.choice([1, 2, 5])):
+                send(1, rng.choice([mds, 100, 1]), rng.choice([0, 2, 2]))
+                wait(rng.choice([rtt, 50_000, 210_000]))
+                ack(len(pk), rng.choice([rtt, rtt * 3, 10_000_000]))
+        elif z < 0.17:
+            mds = rng.choice(MDS_CHOICES)
+            op(5, mds)
+        elif z < 0.2 and pk:
+            b = pk.pop(rng.randrange(len(pk)))
+            # discards take bytes from the oldest packets in the harness; keep our list in step
+            pk.insert(0, b)
+            op(6, pk.pop(0))
+    # keep gaps within the 10 s bound of valid_history
+    for i in range(5, len(case), 5):
+        case[i] = min(case[i], 10_000_000)
+    return case
+
+
 def valid_history(c):
     if len(c) < 1 or (len(c) - 1) % 5 != 0 or any(v < 0 for v in c):
         return False
@@ -156,8 +240,25 @@ def fixed_cubic(tier):
     return out
 
 
+def gen_bbr(rng):
+    return gen_bbr_probe(rng) if rng.random() < 0.5 else gen_history(rng, bbr=True)
+
+
 def fixed_bbr(tier):
-    return fixed_cubic(tier)
+    """the CUBIC boundary histories, plus ProbeRTT with a tiny BDP: a trickle acknowledged slowly,
+    then an idle period just beyond the 5 s ProbeRTT interval, so that min(cwnd, probe_rtt_cwnd)
+    and bound_cwnd_for_model sit at the 4-datagram floor"""
+    out = fixed_cubic(tier)
+    for m in (1200, 1500, 9000):
+        for gap in (4_999_000, 5_000_001, 10_000_000):
+            c = [m]
+            for _ in range(4):
+                c += [1, m, 1, 0, 0, 2, m, 0, 100_000, 100_000]
+            c += [1, m, 2, 0, gap, 2, m, 0, 100_000, 100_000]
+            for _ in range(4):
+                c += [1, m, 2, 0, 60_000, 2, m, 0, 100_000, 100_000]
+            out.append(c)
+    return out
 
 
 def _kinds(cases):
@@ -238,13 +339,13 @@ registry.register("C10", {
          "model": False, "valid": valid_history,
          "nontrivial": lambda case, out: any(case[i] in (3, 4) for i in range(1, len(case), 5)) and any(case[i] == 2 for i in range(1, len(case), 5)),
          "histogram": lambda cases, outs: {"ops": _kinds(cases), "state_kinds": _states(outs, 7, 3)}},
-        {"name": "bbr", "gen": lambda rng: gen_history(rng, bbr=True), "fixed": fixed_bbr, "quick": 10000, "thorough": 200000,
+        {"name": "bbr", "gen": gen_bbr, "fixed": fixed_bbr, "quick": 6000, "thorough": 120000,
          "model": False, "valid": valid_history,
          "nontrivial": lambda case, out: any(case[i] in (3, 4) for i in range(1, len(case), 5)) and any(case[i] == 2 for i in range(1, len(case), 5)),
          "histogram": lambda cases, outs: {"ops": _kinds(cases)}},
     ],
     "extra_checks": [corr_with_oracle("cubic", lambda rng: gen_history(rng), fixed_cubic, 20000, 400000, 7),
-                     corr_with_oracle("bbr", lambda rng: gen_history(rng, bbr=True), fixed_bbr, 10000, 200000, 3)],
+                     corr_with_oracle("bbr", gen_bbr, fixed_bbr, 6000, 120000, 13)],
     "rule": "cases: boundary families (window floor, recovery-period edges, persistent congestion, MTU changes at 1200/7360/9000) + seeded random valid event histories (2..80 events; sizes 0..65535; datagram sizes 1200..9000; RTT 1us..10s; time steps 0..10s; acks aimed at the recovery start +-1us); a case is non-trivial when it contains a congestion signal and an acknowledgement",
     "assumptions": [
         "oracle_ok (CUBIC, monitored): where on_ack reaches congestion_avoidance() the window it produces is at least 2*max_datagram_size; the code only debug_asserts this; the harness runs with debug assertions on (a failure is a panic = violation) and the judge checks the floor on every row",
